@@ -288,14 +288,14 @@ func main() {
 		} else {
 			switch r.Intn(8) {
 			case 0:
-				n = r.Range(41, maxN)
+				n = r.Range(41, 400)
 			case 1:
 				n = []int{63, 64, 65, 127, 128, 129, 255, 256, 257}[r.Intn(9)]
 			default:
 				n = r.Range(41, 160)
 			}
-			if a.Tier == "thorough" && i%199 == 0 {
-				n = r.Range(1000, maxN)
+			if a.Tier == "thorough" && i%67 == 0 {
+				n = r.Range(401, maxN) // a few large populations (the model's slices are lists: quadratic)
 			}
 			layout = layouts[r.Intn(len(layouts))]
 		}
